@@ -92,14 +92,17 @@ def soft_mask(c, period=7, run=3):
     return ''.join(ch.lower() if (j % period) < run else ch for j, ch in enumerate(c))
 
 
-def fasta_bytes(contigs, width=60, eol='\n', lower=False, mixed=False):
+def fasta_bytes(contigs, width=60, eol='\n', lower=False, mixed=False, final_eol=True):
     out = []
     for i, c in enumerate(contigs):
         c = c.lower() if lower else soft_mask(c, 7 + i, 3) if mixed else c
         out.append(f'>contig{i + 1} d{eol}')
         for a in range(0, max(len(c), 1), width):
             out.append(c[a:a + width] + eol)
-    return ''.join(out).encode()
+    text = ''.join(out)
+    if not final_eol and text.endswith(eol):
+        text = text[:-len(eol)]
+    return text.encode()
 
 
 def gzip_bytes(data, members=1):
